@@ -113,6 +113,13 @@ def _shapes():
         b = normal.sample(0.0, 1.0)
         return x, a, b
 
+    def cond_false_then_sites():
+        x = jax.lax.cond(False, lambda: normal.sample(0.0, 1.0), lambda: normal.sample(0.0, 1.0) * 1.0)
+        a = normal.sample(0.0, 1.0)
+        k = jax.lax.switch(0, [lambda: normal.sample(0.0, 1.0), lambda: normal.sample(0.0, 1.0) + 0.0])
+        b = normal.sample(0.0, 1.0)
+        return x, a, k, b
+
     def vmap_axis_size():
         return modular_vmap(lambda: (normal.sample(0.0, 1.0), normal.sample(0.0, 1.0)), in_axes=(), axis_size=3)()
 
@@ -130,6 +137,7 @@ def _shapes():
         "scan_then_sites": (scan_then_sites, 6 + 3, True),
         "site_scan_cond_site": (site_scan_cond_site, 1 + 4 + 1 + 4 + 1, True),
         "cond_then_sites": (cond_then_sites, 3, False),
+        "cond_false_then_sites": (cond_false_then_sites, 4, False),
     }
     # generative functions of the family (continuous sites only are compared for distinctness)
     for pname in ("repeat_chain", "vmap_dist", "scan_c", "vmap_indep", "scan_vmap", "vmap_scan", "cond_c", "repeat_vecsite"):
@@ -348,7 +356,7 @@ def items(tier):
     nk = 16 if tier == "quick" else 128
     its = []
     names = [
-        "seq", "shaped", "scan1", "nested_scan", "scan_then_sites", "site_scan_cond_site", "cond_then_sites", "vmap_of_scan", "scan_of_vmap", "cond_in_scan", "switch3", "vmap_axis_size",
+        "seq", "shaped", "scan1", "nested_scan", "scan_then_sites", "site_scan_cond_site", "cond_then_sites", "cond_false_then_sites", "vmap_of_scan", "scan_of_vmap", "cond_in_scan", "switch3", "vmap_axis_size",
         "gen:repeat_chain", "gen:vmap_dist", "gen:scan_c", "gen:vmap_indep", "gen:scan_vmap", "gen:vmap_scan", "gen:cond_c", "gen:repeat_vecsite",
         "chain_mh", "chain_mala_2chains", "rejuvenation_smc",
     ]
@@ -366,7 +374,7 @@ def main(tier, seed):
     if only:
         its = [it for it in its if only in str(it)]
     res, errors = H.fan_out("checks.c07", "work", its, tier, seed)
-    rule = "23 program shapes x root keys (16 quick / 128 thorough) x {jit, eager(first 2 keys)}: all sampler invocations recorded at the seam; states = executions analysed, transitions = real executions"
+    rule = "24 program shapes x root keys (16 quick / 128 thorough) x {jit, eager(first 2 keys)}: all sampler invocations recorded at the seam; states = executions analysed, transitions = real executions"
     return H.finish(
         PROP, tier, seed, "model_checking", res, errors, t0, rule,
         ["independence of distinct leaves of the threefry split/fold_in tree is the PRNG's contract (trusted); the law of TFP's samplers over keys is not enumerable (2^64 keys): each draw is shown to be TFP's own draw for the site's own key and parameters", "key-derivation linearity is observed eagerly on scan-free shapes only (inside lax.scan keys are tracers)"],
